@@ -100,8 +100,9 @@ func (r *c12Chunked) Read(p []byte) (int, error) {
 
 // c12Uniform delivers k bytes per read.
 type c12Uniform struct {
-	data []byte
-	k    int
+	data        []byte
+	k           int
+	eofWithData bool // the last bytes are returned together with io.EOF (allowed by io.Reader)
 }
 
 func (r *c12Uniform) Read(p []byte) (int, error) {
@@ -117,6 +118,9 @@ func (r *c12Uniform) Read(p []byte) (int, error) {
 	}
 	copy(p, r.data[:n])
 	r.data = r.data[n:]
+	if r.eofWithData && len(r.data) == 0 {
+		return n, io.EOF
+	}
 	return n, nil
 }
 
@@ -189,7 +193,7 @@ func VerifHarness_C12_frames() {
 	k := verifConc(ndInt("chunk", 1, len(stream)))
 	ref := &parser{reader: &c12Uniform{data: stream, k: len(stream)}}
 	fa, ea := c12Drain(ref, 2)
-	p := &parser{reader: &c12Uniform{data: stream, k: k}, bigBuffer: make([]byte, B)}
+	p := &parser{reader: &c12Uniform{data: stream, k: k, eofWithData: ndBool("eof-with-last-chunk")}, bigBuffer: make([]byte, B)}
 	fb, eb := c12Drain(p, 2)
 	c12Same(fa, fb, ea, eb, "chunking")
 	if !wrongLen {
